@@ -353,6 +353,11 @@ func ardop.(*TNC).get(tnc, cmd) (v, err)
   at send#1 requires again-to-the-control-port: $0 == tnc.out
   at send#1 requires the-same-command: $1 == gCmdLine
   at send#1 requires at-most-three-transmissions: sent < 3
+  at return#1 requires closed-tnc-refused: $r1 == ErrTNCClosed
+  at return#2 requires success-only-with-the-answer-to-this-command: msg.cmd == cmd && $r1 == nil && $r0 == msg.value
+  at return#3 requires fault-report-is-an-error: msg.cmd == cmdFault && $r1 != nil
+  at return#4 requires gives-up-after-three-transmissions: sent == 3 && msg.cmd == cmdCRCFault && $r1 != nil
+  at return#5 requires control-stream-ended: $r1 == ErrTNCClosed
   loop 0 invariant transmissions: 1 <= sent && sent <= 3 && gCmdLine == cmd
 
 func ardop.(*TNC).set(tnc, cmd, param) (err)
@@ -364,6 +369,11 @@ func ardop.(*TNC).set(tnc, cmd, param) (err)
   at send#1 requires again-to-the-control-port: $0 == tnc.out
   at send#1 requires the-same-command: $1 == gCmdLine
   at send#1 requires at-most-three-transmissions: sent < 3
+  at return#1 requires closed-tnc-refused: $r0 == ErrTNCClosed
+  at return#2 requires success-only-with-the-answer-to-this-command: msg.cmd == cmd && $r0 == nil
+  at return#3 requires fault-report-is-an-error: msg.cmd == cmdFault && $r0 != nil
+  at return#4 requires gives-up-after-three-transmissions: sent == 3 && msg.cmd == cmdCRCFault && $r0 != nil
+  at return#5 requires control-stream-ended: $r0 == ErrTNCClosed
   loop 0 invariant transmissions: 1 <= sent && sent <= 3 && gCmdLine == line
 
 
